@@ -88,6 +88,7 @@ func c03Program(mode int, origin int64, orgText string, pre string, kinds []stri
 	}
 	sb.WriteString("lab:\n")
 	sb.WriteString(sentinelLine(1))
+	sb.WriteString("CAP EQU $\n") // captures the address right behind the sentinel: lab + 8
 	for i, u := range uses {
 		sb.WriteString(stmtLine(u))
 		sb.WriteString(sentinelLine(2 + i))
@@ -127,9 +128,9 @@ func readUse(use string, region []byte, mode int) (val int64, width int, ok bool
 
 func c03Uses(mode int) []string {
 	if mode == 32 {
-		return []string{"DW lab", "DD lab", "MOV EBX,lab", "MOV EAX,[lab]", "LGDT [lab]", "DW $", "DD $"}
+		return []string{"DW lab", "DD lab", "MOV EBX,lab", "MOV EAX,[lab]", "LGDT [lab]", "DW $", "DD $", "DW CAP"}
 	}
-	return []string{"DW lab", "DD lab", "MOV BX,lab", "MOV AX,[lab]", "LGDT [lab]", "DW $", "DD $"}
+	return []string{"DW lab", "DD lab", "MOV BX,lab", "MOV AX,[lab]", "LGDT [lab]", "DW $", "DD $", "DW CAP"}
 }
 
 func c03Judge(mode int, origin int64, kinds []string, uses []string, withBase bool) func(rs []*core.Result) core.Verdict {
@@ -208,6 +209,9 @@ func c03Judge(mode int, origin int64, kinds []string, uses []string, withBase bo
 			facet := "label_value"
 			if strings.HasSuffix(u, "$") {
 				want = origin + int64(a) + 8 + driftObs
+				facet = "dollar_value"
+			} else if u == "DW CAP" { // `CAP EQU $` was written directly behind the label's sentinel
+				want = real + 8 + driftObs
 				facet = "dollar_value"
 			}
 			mask := int64(1)<<uint(width) - 1
@@ -307,7 +311,7 @@ func c03Scenarios(tier string) []*core.Scenario {
 				ks[0] = strings.ReplaceAll(ks[0], "+-", "-")
 				ks[1] = strings.ReplaceAll(ks[1], "+-", "-")
 			}
-			uses := c03Uses(mode)[:3]
+			uses := append(append([]string{}, c03Uses(mode)[:3]...), "DW CAP")
 			src := c03Program(mode, 0x7c00, "\tORG 0x7c00\n", "", ks, uses)
 			basesrc := c03Program(mode, 0x7c00, "\tORG 0x7c00\n", "", nil, uses)
 			return &core.Case{
